@@ -105,7 +105,20 @@ func ZZC17Names() {
 	vn.Assert("C17.full-name", zzModeIndex(StringToMode(m.FullString())) == mi)
 }
 
+// ZZC17Documented: the twelve documented spellings, as concrete strings (whatever string
+// functions the implementation uses run concretely), denote their modes; a few near misses
+// denote none.
+func ZZC17Documented() {
+	spell := [][]string{{"r", "rep", "replicable"}, {"m", "mul", "multicast"}, {"a", "aff", "affine"}, {"l", "lin", "linear"}}
+	mi := vn.Pick(4)
+	k := vn.Pick(3)
+	vn.Assert("C17.documented-spelling-denotes-its-mode", zzModeIndex(StringToMode(spell[mi][k])) == mi)
+	miss := []string{"", "x", "re", "mu", "af", "li", "replicables", "ml", "lr"}[vn.Pick(9)]
+	vn.Assert("C17.undocumented-spelling-denotes-no-mode", zzModeIndex(StringToMode(miss)) < 0 || zzModeIndex(StringToMode(miss)) > 3)
+}
+
 func init() {
+	vn.Register("types.ZZC17Documented", ZZC17Documented)
 	vn.Register("types.ZZC17Orders", ZZC17Orders)
 	vn.Register("types.ZZC17Spellings", ZZC17Spellings)
 	vn.Register("types.ZZC17Names", ZZC17Names)
